@@ -514,6 +514,27 @@ def c11_directed_specs(corp, hash_seeds):
                 ops.append(op)
             specs.append({"property": "C11", "kind": "api", "hash_seed": 0, "origin": "directed", "label": "after-failure %s (%s)" % (f, style),
                           "knobs": {"step_clock": False, "do_timing": False}, "shared_options": {}, "ops": ops})
+    # a helper fault (the environment's doing, transient) in one request; the same request and a related one afterwards
+    # must be compiled as in a fresh process - a failure must not be remembered
+    kinds = [FAULT_POINTS[i] for i in (1, 3, 4, 9, 12, 16, 22, 26, 33) if i < len(FAULT_POINTS)]
+    for ident in ("K/same_call_body0", "K/two_calls", "K/hash_body", "K/lib_same_name", "R/example/constexpr"):
+        e = corp.by_id.get(ident)
+        if e is None:
+            continue
+        for ki, fp in enumerate(kinds):
+            style = ("obj", "shared", "none")[ki % 3]
+            ops = []
+            for j in range(3):
+                op = _op(e, {}, opt_style=style)
+                op["src_style"] = "dict"
+                if j == 0:
+                    op["helpers"] = [dict(fp)]
+                ops.append(op)
+            other = corp.by_id.get("K/same_call_body1")
+            if other is not None:
+                ops.append(_op(other, {}, opt_style=style, src_style="dict"))
+            specs.append({"property": "C11", "kind": "api", "hash_seed": 0, "origin": "directed", "label": "after-helper-fault %s/%s" % (ident, fp["kind"]),
+                          "knobs": {"step_clock": False, "do_timing": False}, "shared_options": {}, "ops": ops})
     # compact then verbose, for everything whose text depends on the output mode
     modes = [e for e in corp.entries if e.get("n", 0) == 0 and e["family"] in ("M", "D")]
     for ci, chunk in enumerate(_chunks(modes, 8)):
